@@ -1,4 +1,6 @@
 import CoercionModel.Proofs.Attempts
+import CoercionModel.Model.Skeletons
+import CoercionModel.Generated.F10
 set_option linter.unusedSimpArgs false
 /-
   C05 — Attempts: at most Retries+1 calls, stop on success/permanent, all recorded.
@@ -186,5 +188,12 @@ example : (run 1 false scEx).calls = 2 ∧ (run 1 false scEx).status = .failed :
 example : (run 0 true (fun _ => {})).calls = 1 ∧ (run 0 true (fun _ => {})).status = .completed := by decide
 example : (run 5 false scEx).evs = [.write .running 0, .enter 0, .exit 0, .write .running 1, .enter 1, .exit 1,
     .write .running 2, .enter 2, .exit 2, .write .running 3, .write .failed 3, .write .failed 3] := by decide
+
+/-- the Go functions this property's model mirrors still have the shape the model was written against
+    (control-flow skeletons regenerated from /repo on every run, Model/Skeletons): actionsExec, actionsExecute -/
+theorem facts_skeleton :
+    Generated.F10.actionsExec = Skeletons.actionsExec ∧
+    Generated.F10.actionsExecute = Skeletons.actionsExecute := by
+  decide
 
 end Coercion.C05
